@@ -27,7 +27,11 @@ def programs(tier):
          ("gtp-and-atp", [(3, 2, 0, 0, [])], [[C(1, 2, "gtp", p=10)], [C(1, 3, p=10)], [C(1, 1, "gtp", p=10)]]),
          ("two-ops-each", [(6, 0, 0, 0, [])], [[C(1, 3, p=10), C(1, 3, p=10)], [R(1, 2), C(1, 4, p=10)]]),
          ("nadh-transfer-vs-topup", [(2, 0, 3, 0, []), (2, 0, 3, 0, [C(2, 2), ("consume", 2, 2, 1, "nadh", False, 10)])], [[T(1, 2, 2, "nadh")], [C(1, 4, p=10)]]),
-         ("debt-race", [(2, 0, 0, 3, [])], [[C(1, 4, ad=True, p=10)], [C(1, 3, ad=True, p=10)]])]
+         ("debt-race", [(2, 0, 0, 3, [])], [[C(1, 4, ad=True, p=10)], [C(1, 3, ad=True, p=10)]]),
+         # every currency has its own regenerate / debit race (NADH is touched by convert, by the top-up inside an ATP spend, and by direct spends)
+         ("nadh-regenerate-vs-convert", [(6, 0, 5, 0, [C(1, 4), ("consume", 1, 1, 3, "nadh", False, 10)])], [[R(1, 2, "nadh")], [V(1, 2)]]),
+         ("nadh-regenerate-vs-topup", [(3, 0, 4, 0, [("consume", 1, 1, 2, "nadh", False, 10)])], [[R(1, 2, "nadh")], [C(1, 4, p=10)]]),
+         ("gtp-regenerate-vs-spend", [(3, 4, 0, 0, [C(1, 3, "gtp", p=10)])], [[R(1, 2, "gtp")], [C(1, 1, "gtp", p=10)]])]
     if tier != "quick":
         P += [("three-ops", [(8, 0, 2, 2, [])], [[C(1, 3, p=10), V(1, 2), C(1, 4, ad=True, p=10)], [R(1, 2), C(1, 5, p=10)]]),
               ("transfer-chain", [(4, 0, 0, 0, []), (4, 0, 0, 0, [C(2, 4)])], [[T(1, 2, 2), T(1, 2, 2)], [T(2, 1, 1)], [C(2, 3, p=10)]]),
@@ -37,7 +41,8 @@ def programs(tier):
 
 
 def run_program(args):
-    name, stores, threads, preempt, nrand, seed_, maxs = args
+    name, stores, threads, preempt, nrand, seed_, maxs = args[:7]
+    opcode_mode = len(args) > 7 and args[7]
     base.use_repo()
     import importlib, random
     met = importlib.import_module("operon_ai.state.metabolism")
@@ -70,7 +75,7 @@ def run_program(args):
                 do(objs, op)
         init = [state(o) for o in objs]
         events = []          # (kind, thread, opindex, result)
-        sc = sched.Scheduler([met.__file__])
+        sc = sched.Scheduler([met.__file__], opcodes=opcode_mode)
         clock = {"t": 0}
 
         def thunk(ti):
@@ -109,7 +114,10 @@ def run_program(args):
         hist = {"stores": [{"caps": {"atp": b, "gtp": g, "nadh": nd, "maxdebt": md}, "init": init[i]} for i, (b, g, nd, md, _) in enumerate(stores)],
                 "ops": ops, "final": [state(o) for o in objs], "complete": complete and not r["deadlock"], "deadlock": r["deadlock"], "errors": [e for e in r["errors"] if e]}
         return r, hist
-    out = sched.explore(make_run, preemptions=preempt, max_schedules=maxs, rng=rng, random_schedules=nrand)
+    if opcode_mode:      # bytecode granularity: one whole operation of the other thread inserted at every instruction of this one, both ways (read-modify-write inside a line)
+        out = sched.explore_insertions(make_run, 0, 1, other_budget=20000) + sched.explore_insertions(make_run, 1, 0, other_budget=20000)
+    else:
+        out = sched.explore(make_run, preemptions=preempt, max_schedules=maxs, rng=rng, random_schedules=nrand)
     # distinct histories (normalise positions to ranks)
     distinct = {}
     for tr, h in out:
@@ -144,8 +152,10 @@ def run(tier):
     # ---- binding: real threads under the line scheduler
     progs = programs(tier)
     jobs = [(n, s, t, 2 if quick else 3, 150 if quick else 4000, base.seed() * 1000 + i, 1200 if quick else 30000) for i, (n, s, t) in enumerate(progs)]
-    with cf.ProcessPoolExecutor(max_workers=8) as ex:
-        out = list(ex.map(run_program, jobs))
+    two = [(n + " @bytecode", s, t, 0, 0, base.seed() * 1000 + 500 + i, 0, True) for i, (n, s, t) in enumerate(progs) if len(t) == 2 and all(len(x) == 1 for x in t)]
+    with cf.ProcessPoolExecutor(max_workers=12) as ex:
+        out = list(ex.map(run_program, jobs + two))
+    R.cov["bytecode_granularity_programs"] = len(two)
     hists, origin = [], []
     for x in out:
         for hh in x["histories"]:
@@ -185,7 +195,7 @@ def run(tier):
     R.cov["rule"] = ("%d programs of 2-3 threads x 1-3 operations on one or two real ATP_Store objects (racing spends, spend vs regenerate, NADH top-up, debt, convert, opposite transfers, transfer vs spend, "
                      "GTP + ATP) run under a line-granularity scheduler: every schedule with at most %d preemptions plus seeded random schedules; each distinct history (call / return order, results, final "
                      "state) checked for linearizability by TLC against MetabolismFn.tla. non-trivial = distinct history" % (len(progs), 2 if quick else 3))
-    R.assumptions += ["preemption granularity = source lines of metabolism.py (CPython switches threads between bytecodes; C-level operations are atomic under the GIL)",
+    R.assumptions += ["preemption granularity = source lines of metabolism.py for the bounded-preemption search; for every two-thread single-operation program additionally bytecode granularity with one whole operation inserted at every instruction of the other (C-level operations are atomic under the GIL)",
                       "schedules are exhaustive only up to the preemption bound; threading.Lock is substituted by an owner-aware lock that parks the thread under the scheduler",
                       "a transfer linearizes as two atomic steps (debit, then credit); energy in flight between them is by design (DESIGN.md section 6 C05)"]
     return R.finish()
